@@ -27,6 +27,12 @@ def engine_for(pid):
 
 
 def main(argv=None):
+    try:        # developer aid: `kill -USR1 <pid>` prints the stack of every thread (inherited by forked workers)
+        import faulthandler
+        import signal
+        faulthandler.register(signal.SIGUSR1, all_threads=True)
+    except Exception:
+        pass
     ap = argparse.ArgumentParser()
     ap.add_argument('pid')
     ap.add_argument('--tier', default=os.environ.get('VERIF_TIER', 'quick'), choices=['quick', 'thorough'])
